@@ -33,7 +33,13 @@ type LoggerWrapper struct {
 // It implements the io.Writer interface, allowing LoggerWrapper to be
 // used anywhere an io.Writer is expected.
 func (m *LoggerWrapper) Write(b []byte) (n int, err error) {
-	m.logger.Write(b)
+	// Without a live configuration (before Refresh, after Destroy)
+	// the handle is unbound and falls back to the default logger.
+	if l := m.logger; l != nil {
+		l.Write(b)
+	} else {
+		defaultLogger.Write(b)
+	}
 	return len(b), nil
 }
 
